@@ -67,6 +67,7 @@ func (e *Engine) symBytes(st *State, name string, lo, hi, spare int) SliceV {
 		ln = e.c64(int64(lo))
 	} else {
 		ln = e.ts.VarRange(name+".len", 64, uint64(lo), uint64(hi))
+		e.pinRange(st, ln, uint64(lo), uint64(hi))
 	}
 	e.h.addInput(InputDecl{Name: name, Kind: "bytes", Lo: lo, Hi: hi + spare})
 	bt := types.Typ[types.Uint8]
@@ -103,7 +104,9 @@ func init() {
 		if lo == hi {
 			return e.c64(int64(lo))
 		}
-		return e.ts.VarRange(name, 64, uint64(lo), uint64(hi))
+		v := e.ts.VarRange(name, 64, uint64(lo), uint64(hi))
+		e.pinRange(st, v, uint64(lo), uint64(hi))
+		return v
 	}
 	h["vChoice"] = func(e *Engine, st *State, a []Value, in ssa.Instruction) Value {
 		name := e.uniqueName(st, e.argString(st, a[0], "vChoice"))
@@ -116,6 +119,7 @@ func init() {
 			return e.c64(0)
 		}
 		v := e.ts.VarRange(name, 64, 0, uint64(n-1))
+		e.pinRange(st, v, 0, uint64(n-1))
 		call, ok := in.(*ssa.Call)
 		if !ok {
 			panic(encErr("vChoice in unexpected context"))
@@ -256,6 +260,17 @@ func init() {
 	}
 	h["vNote"] = func(e *Engine, st *State, a []Value, in ssa.Instruction) Value {
 		return nil
+	}
+}
+
+// pinRange adds the exact range to the path condition when the variable's declared
+// hull (shared across paths that reuse the name with other ranges) is wider.
+func (e *Engine) pinRange(st *State, v *Term, lo, hi uint64) {
+	if v.lo < lo {
+		st.pc = append(st.pc, e.ts.Ule(e.ts.Const(v.w, lo), v))
+	}
+	if v.hi > hi {
+		st.pc = append(st.pc, e.ts.Ule(v, e.ts.Const(v.w, hi)))
 	}
 }
 
